@@ -187,7 +187,87 @@ theorem luba_resync_bound_any_history (o : Oracle) (chunks : List (List Nat)) (i
   obtain ⟨a, h⟩ := chunks_rel o chunks Luba.init ⟨[], 0, 0⟩ rel_init
   exact idle_boundary o idle _ a h hid hlen hne
 
+/-! ## no memory of delivered items: a frame received again is delivered again
+
+The receivers are functions of the byte stream (`…_chunking_independent`: the items of `a ++ b` are the items of `a`
+followed by the items of `b` from the state after `a`) and the state after a complete frame is a frame boundary that
+remembers nothing of the frame but the device type (`rxdt`/`txdt`).  Hence a well-formed frame fed twice in a row
+from a frame boundary yields its item twice.  (Seeded change C19-D — the SCI receiver suppressing a *repeated* error
+report — contradicts `sci_error_report_repeated`.) -/
+
+/-- **sci_repeat_delivered_twice**: a checksum-valid SCI message received twice in a row from a frame boundary delivers
+its meaning twice (the second time under the device type the first one left). -/
+theorem sci_repeat_delivered_twice (o : Oracle) (s : Sci.State) (h : sciIdle s) (st hi mi lo : Nat)
+    (hst : st < 256) (hlo : lo < 256) :
+    (Sci.runChunk o s ([st, hi, mi, lo, xorSum [st, hi, mi, lo]] ++ [st, hi, mi, lo, xorSum [st, hi, mi, lo]])).err
+      = none ∧
+    (Sci.runChunk o s ([st, hi, mi, lo, xorSum [st, hi, mi, lo]] ++ [st, hi, mi, lo, xorSum [st, hi, mi, lo]])).items =
+      (sciFrameMeaning o s.rxdt st hi mi lo).2 ++
+        (sciFrameMeaning o (sciFrameMeaning o s.rxdt st hi mi lo).1 st hi mi lo).2 := by
+  have hidle : ∀ r, sciIdle ⟨.waitStatus, List.replicate 5 0, r⟩ := by intro r; simp [sciIdle]
+  simp only [List.cons_append, List.nil_append]
+  rw [sci_frame o s h st hi mi lo _ hst hlo, sci_frame o _ (hidle _) st hi mi lo _ hst hlo]
+  simp [sciFrameOut, Sci.runChunk]
+
+/-- **sci_error_report_repeated**: `k` identical error reports (status code 7, known error code 1..5) in a row, from
+any frame boundary, deliver `k` device replies `(id, 7)` — one per report, however often the fault is reported. -/
+theorem sci_error_report_repeated (o : Oracle) (st hi mi lo : Nat) (hst : st < 256) (hlo : 1 ≤ lo ∧ lo ≤ 5)
+    (hcode : st % 16 = 7) (k : Nat) : ∀ (s : Sci.State), sciIdle s →
+    (Sci.runChunk o s (List.replicate k [st, hi, mi, lo, xorSum [st, hi, mi, lo]]).flatten).err = none ∧
+    (Sci.runChunk o s (List.replicate k [st, hi, mi, lo, xorSum [st, hi, mi, lo]]).flatten).items =
+      List.replicate k (Item.sciinfo (st / 16) 7) := by
+  induction k with
+  | zero => intro s _; simp [Sci.runChunk]
+  | succ k ih =>
+    intro s h
+    have hidle : ∀ r, sciIdle ⟨.waitStatus, List.replicate 5 0, r⟩ := by intro r; simp [sciIdle]
+    simp only [List.replicate_succ, List.flatten_cons, List.cons_append, List.nil_append]
+    rw [sci_frame o s h st hi mi lo _ hst (by omega)]
+    obtain ⟨i1, i2⟩ := ih _ (hidle (sciFrameOut o s.rxdt st hi mi lo (xorSum [st, hi, mi, lo])).1)
+    simp only [i1, i2, true_and]
+    simp [sciFrameOut, sciFrameMeaning, hcode, hlo.1, hlo.2]
+
+/-- **luba_repeat_delivered_twice**: a checksum-valid LUBA frame (payload not malformed for its type) received twice in
+a row from a frame boundary delivers its meaning twice (the second time in the context the first one left). -/
+theorem luba_repeat_delivered_twice (o : Oracle) (s : Luba.State) (rx tx : Nat) (h : Rel s ⟨[], rx, tx⟩)
+    (c n : Nat) (p : List Nat) (hn : 1 ≤ n ∧ n ≤ lubaMaxPayload) (hp : p.length = n)
+    (hb : ∀ x ∈ c :: n :: p, x < 256)
+    (hwf1 : Out.malformed ∉ (lubaMeaning o ⟨rx, tx⟩ c p).2)
+    (hwf2 : Out.malformed ∉ (lubaMeaning o (lubaMeaning o ⟨rx, tx⟩ c p).1 c p).2) :
+    (Luba.runChunk o s ((0x59 :: c :: n :: (p ++ [xorSum (c :: n :: p)])) ++
+        (0x59 :: c :: n :: (p ++ [xorSum (c :: n :: p)])))).err = none ∧
+    (Luba.runChunk o s ((0x59 :: c :: n :: (p ++ [xorSum (c :: n :: p)])) ++
+        (0x59 :: c :: n :: (p ++ [xorSum (c :: n :: p)])))).items.map Out.item =
+      (lubaMeaning o ⟨rx, tx⟩ c p).2 ++ (lubaMeaning o (lubaMeaning o ⟨rx, tx⟩ c p).1 c p).2 := by
+  have hn20 : n ≤ 20 := hn.2
+  have hnil : ∀ ctx, lubaDeframe o ctx [] = [] := by intro ctx; rw [lubaDeframe.eq_def]
+  have hshape : (0x59 :: c :: n :: (p ++ [xorSum (c :: n :: p)])) ++ (0x59 :: c :: n :: (p ++ [xorSum (c :: n :: p)])) =
+      0x59 :: c :: n :: (p ++ xorSum (c :: n :: p) :: (0x59 :: c :: n :: (p ++ xorSum (c :: n :: p) :: []))) := by simp
+  have hdf : lubaDeframe o ⟨rx, tx⟩ ((0x59 :: c :: n :: (p ++ [xorSum (c :: n :: p)])) ++
+        (0x59 :: c :: n :: (p ++ [xorSum (c :: n :: p)]))) =
+      (lubaMeaning o ⟨rx, tx⟩ c p).2 ++ (lubaMeaning o (lubaMeaning o ⟨rx, tx⟩ c p).1 c p).2 := by
+    rw [hshape, deframe_frame o _ c n _ p _ hn.1 hn20 hp, if_pos rfl,
+      deframe_frame o _ c n _ p [] hn.1 hn20 hp, if_pos rfl, hnil, List.append_nil]
+  have hchk : xorSum (c :: n :: p) < 256 := xorSum_lt _ hb
+  have hbytes : ∀ x ∈ (0x59 :: c :: n :: (p ++ [xorSum (c :: n :: p)])) ++
+      (0x59 :: c :: n :: (p ++ [xorSum (c :: n :: p)])), x < 256 := by
+    intro x hx
+    simp only [List.mem_cons, List.mem_append, List.mem_nil_iff, or_false] at hx
+    rcases hx with (hx | hx | hx | hx | hx) | hx | hx | hx | hx | hx
+    all_goals first
+      | (rw [hx]; omega)
+      | exact hb x (by simp [hx])
+  obtain ⟨r1, r2⟩ := luba_always_resyncs o s rx tx h _ hbytes (by
+    show Out.malformed ∉ lubaDeframe o _ _
+    rw [hdf]; simp only [List.mem_append, not_or]; exact ⟨hwf1, hwf2⟩)
+  exact ⟨r1, by rw [r2, hdf]⟩
+
 /-! ## non-vacuity -/
+
+/-- the bus short-circuit report of device 3, three times in a row: three device replies -/
+example : (Sci.runChunk ⟨fun _ _ _ => true, fun _ _ _ => true⟩ Sci.init
+    ([0x37, 0, 0, 2, 0x35] ++ [0x37, 0, 0, 2, 0x35] ++ [0x37, 0, 0, 2, 0x35])).items =
+    [.sciinfo 3 7, .sciinfo 3 7, .sciinfo 3 7] := by decide
 
 /-- a well-formed stream with noise, a bad length, an observed ENABLE DEVICE TYPE and a backward frame -/
 example : LubaWellFormed ⟨fun _ _ _ => true, fun _ _ _ => true⟩ ⟨0, 0⟩
